@@ -1005,9 +1005,12 @@ impl<'a> Gen<'a> {
                     r.attrs_field = Some(self.rng.chance(1, 4));
                 }
                 2 | 3 => {
-                    let list = match self.rng.below(8) {
+                    let list = match self.rng.below(10) {
                         0 | 1 => vec![],
                         5 => vec!["doc".to_string()],
+                        // (names of several segments, longer than any name the receiver reads)
+                        8 => vec!["attr_a::sub".to_string(), "other".to_string()],
+                        9 => vec!["serde::rename".to_string()],
                         2 => vec!["doc".to_string(), "allow".to_string()],
                         3 if !r.attr_names.is_empty() => vec!["other".to_string(), r.attr_names[0].clone()],
                         _ => vec!["other".to_string(), "doc".to_string()],
